@@ -21,11 +21,11 @@ def run(ctx):
                      "encoder::get_or_generate_source_block_encoding_plan (cache hit on the second construction, concrete)", "decoder::SourceBlockDecoder::decode (three thresholds)",
                      "pi_solver::IntermediateSymbolDecoder::execute (dense and sparse matrices, debug-assertion X matrix on/off)"] + \
                     ["octets::" + k for k in c11.KERNELS if not k.startswith("pub_")]
-    kps = c06.rows_upto(26 if not thorough else 101) + ([257] if thorough else [])
+    kps = c06.rows_upto(55 if not thorough else 101) + ([257] if thorough else [])
     rep.bounds = {"encoder programs": "K' in %s x thresholds %s x {direct solve, plan} x {debug-assertions, release}: every distinct program certified for all data" % (kps, THRESHOLDS),
                   "decoder programs": "scenario sample at K=10,26 x thresholds %s x both profiles: same verdict at the same packet, every program certified" % (THRESHOLDS,),
                   "kernels": "each kernel at one length (a full vector + tail byte), contents symbolic, fixed scalar for the table kernels (C11 holds the full claim)",
-                  "concrete flavours": "std vs no_std build, new vs cached vs with_encoding_plan vs Encoder::new, debug vs release: K in {1,10,11,26,101,257,300}, T in {1,3,8}"}
+                  "concrete flavours": "std vs no_std build, new vs cached vs with_encoding_plan vs Encoder::new, debug vs release: K in {1,10,11,26,50,101,110,160,230,257,300}, T in {1,2,3,8}"}
     rep.assumptions = ["uniqueness of the specification's solution (a consequence of each certificate) turns 'each flavour meets the spec' into 'flavours agree'",
                        "the optimiser is not modelled: Kani/MIR see unoptimised semantics; release vs debug is compared on concrete runs and through the programs they emit",
                        "the process-wide plan cache is exercised only single-threaded (C17 is not applicable)"]
@@ -104,7 +104,7 @@ def run(ctx):
     # ---- concrete flavours through the public API: std/no_std x debug/release x new/cached/planned/object
     t0 = time.time()
     n = 0
-    for K, T in [(1, 3), (10, 1), (11, 3), (26, 8), (101, 1), (257, 2), (300, 1)]:
+    for K, T in [(1, 3), (10, 1), (11, 3), (26, 8), (50, 2), (101, 1), (110, 1), (160, 3), (230, 1), (257, 2), (300, 1)]:
         outs = {}
         for name, rp in (("std", replay), ("no_std", replay_ns)):
             for release in (False, True):
